@@ -127,7 +127,7 @@ def isO (c : Curve) (q : Point) : Bool := (q.1 % c.p, q.2 % c.p) == neutral c
 
 def parOf (e : Env) : Par :=
   { fpBits := e.fpbits, width := ((e.kv.lookup "width").bind String.toNat?).getD 4,
-    depth := ((e.kv.lookup "depth").bind String.toNat?).getD 4, ordBits := Relic.Model.Rec.bitLen e.r }
+    depth := ((e.kv.lookup "depth").bind String.toNat?).getD 4, ord := e.r }
 
 /-- variable-base routine by name; `none` = not modelled -/
 def mulBy (e : Env) (v : String) : Option (Point → Int → Option Point) :=
@@ -238,8 +238,8 @@ partial def handle (e : Env) (w : Nat) (op : String) (args : List String) (got :
     let k := if v == "dig" then ((k.natAbs % 2 ^ w : Nat) : Int) else k
     let mulm := (e.kv.lookup "mulm").getD ""
     let fixm := (e.kv.lookup "fixm").getD ""
-    -- model column: the loop models of Model/EdMul.lean (Model/MulAlg.lean loops, recodings of Model/Rec.lean with the C
-    -- buffer sizes) over the specification's arithmetic; "err" = the recoding does not fit
+    -- model column: the loop models of Model/EdMul.lean (scalar reduced modulo r, Model/MulAlg.lean loops, recodings of
+    -- Model/Rec.lean with the C buffer sizes) over the specification's arithmetic; "err" = a recoding does not fit
     let f : Option (Point → Int → Option Point) :=
       if v == "mul" then mulBy e mulm
       else if v == "dig" then mulBy e "basic"
@@ -248,14 +248,9 @@ partial def handle (e : Env) (w : Nat) (op : String) (args : List String) (got :
       else if v.startsWith "fix_" then fixBy e (v.drop 4).toString
       else mulBy e v
     let sp := fmtPoint (mul c p k)
-    -- ed_mul_fix_basic with a scalar longer than the group order reads table entries that were never computed (finding
-    -- C17-F2): what comes out depends on the memory behind the table (the harness zero-fills it, and an all-zero point is
-    -- taken for the neutral element by ed_norm), which the group-level model does not describe
-    let beyond := (v == "fix_basic" || ((v == "fix_" || v == "gen") && fixm == "basic")) &&
-      Relic.Model.Rec.bitLen k.natAbs > Relic.Model.Rec.bitLen e.r
-    match f, beyond with
-    | some f, false => some { model := fmtOpt (f p k), spec := [sp], tags := ("mul." ++ v) :: ordTag c "p" p }
-    | _, _ => cls sp ((if beyond then ["fix_basic.beyond-table"] else []) ++ ordTag c "p" p)
+    match f with
+    | some f => some { model := fmtOpt (f p k), spec := [sp], tags := ("mul." ++ v) :: ordTag c "p" p }
+    | none => cls sp (ordTag c "p" p)
   | "eds", [v, p, k, q, m] => do
     let p0 ← parsePoint p
     let q ← parsePoint q
@@ -276,10 +271,9 @@ partial def handle (e : Env) (w : Nat) (op : String) (args : List String) (got :
           then some (Relic.Model.EdMul.simPlainGen (gOps c) (parOf e)) else none
         some (Relic.Model.EdMul.simGen (gOps c) (isO c) mu fx si plain)
       else simBy e v
-    let beyond := v == "gen" && fixm == "basic" && Relic.Model.Rec.bitLen k.natAbs > Relic.Model.Rec.bitLen e.r
-    match f, beyond with
-    | some f, false => some { model := fmtOpt (f p k q m), spec := [sp], tags := ["sim." ++ v] }
-    | _, _ => cls sp []
+    match f with
+    | some f => some { model := fmtOpt (f p k q m), spec := [sp], tags := ["sim." ++ v] }
+    | none => cls sp []
   | "edla", _ :: rest => handle e w "edl" rest got
   | "edl", n :: rest => do
     let n ← n.toNat?
